@@ -211,6 +211,29 @@ def _nargnn(env_name):
     return NARGNNPolicy(env_name=env_name, embed_dim=16, num_layers_heatmap_generator=2, num_layers_graph_encoder=2)
 
 
+def _nar(env_name):
+    """NonAutoregressivePolicy + its bundled NonAutoregressiveDecoder with a deterministic hand-written heatmap encoder (the
+    bundled GNN encoders need torch_geometric): a small MLP over the pairwise features (dx, dy, dist) of the coordinates"""
+    import torch.nn as nn
+
+    from rl4co.models.common.constructive.nonautoregressive import NonAutoregressiveEncoder, NonAutoregressivePolicy
+
+    class PairwiseHeatmapEncoder(NonAutoregressiveEncoder):
+        def __init__(self):
+            super().__init__()
+            self.mlp = nn.Sequential(nn.Linear(3, 8), nn.Tanh(), nn.Linear(8, 1))
+
+        def forward(self, td):
+            locs = td["locs"]
+            diff = locs[:, :, None, :] - locs[:, None, :, :]
+            feats = torch.cat([diff, diff.norm(dim=-1, keepdim=True)], -1)
+            heat = self.mlp(feats).squeeze(-1) * 4.0
+            heat = heat - 100.0 * torch.eye(locs.size(1))
+            return heat, None
+
+    return NonAutoregressivePolicy(encoder=PairwiseHeatmapEncoder(), env_name=env_name)
+
+
 AM_ENVS = ["tsp", "cvrp", "sdvrp", "cvrptw", "svrp", "op", "pctsp", "spctsp", "pdp", "mtsp", "mdcpdp", "mtvrp", "smtwtp"]
 
 # (policy name, builder, environments, also test multistart_greedy)
@@ -229,4 +252,5 @@ ZOO: List[Tuple[str, Callable, List[str], bool]] = [
     ("l2d", _l2d, ["fjsp", "jssp"], False),
     ("l2d-attn", _l2d_attn, ["fjsp", "jssp"], False),
     ("nargnn", _nargnn, ["tsp"], False),
+    ("nar-heatmap", _nar, ["tsp"], True),
 ]
